@@ -1,75 +1,15 @@
-import Driver.Util
-import LcdbModel.Model.LogFormat
+import Driver.Core
+import Driver.Formats
 open Lcdb Drv
 
-def showREvents (ev : List REvent) : String :=
-  " ".intercalate (ev.map fun
-    | REvent.record r => "r:" ++ showBytes r
-    | REvent.drop n => s!"d:{n}")
+def handlers : List (List String → String) := [handleCore, handleFormats]
 
 def handle (line : String) : String :=
-  match line.trimAscii.toString.splitOn " " with
-  | ["v32enc", n] | ["v64enc", n] => match n.toNat? with
-    | some k => hexOfBytes (varintEnc k)
-    | none => "bad-op"
-  | ["v32dec", h] => match parseBytes h with
-    | some bs => match varint32Read bs with
-      | some (v, rest) => s!"ok {v} {rest.length}"
-      | none => "fail"
-    | none => "bad-op"
-  | ["v64dec", h] => match parseBytes h with
-    | some bs => match varint64Read bs with
-      | some (v, rest) => s!"ok {v} {rest.length}"
-      | none => "fail"
-    | none => "bad-op"
-  | ["f32", n] => match n.toNat? with
-    | some k => hexOfBytes (fixedEnc 4 k) ++ s!" {fixedDec (fixedEnc 4 k)}"
-    | none => "bad-op"
-  | ["f64", n] => match n.toNat? with
-    | some k => hexOfBytes (fixedEnc 8 k) ++ s!" {fixedDec (fixedEnc 8 k)}"
-    | none => "bad-op"
-  | ["slice", h] => match parseBytes h with
-    | some bs => match sliceRead bs with
-      | some (s, rest) => s!"ok {showBytes s} {rest.length}"
-      | none => "fail"
-    | none => "bad-op"
-  | ["crc", init, h] => match init.toNat?, parseBytes h with
-    | some z, some bs => s!"{(crcExtendTab (BitVec.ofNat 32 z) bs).toNat}"
-    | _, _ => "bad-op"
-  | ["mask", n] => match n.toNat? with
-    | some k => s!"{(crcMask (BitVec.ofNat 32 k)).toNat} {(crcUnmask (BitVec.ofNat 32 k)).toNat}"
-    | none => "bad-op"
-  | ["logw", len0, recs] => match len0.toNat?, parseList parseBytes recs "," with
-    | some l0, some rs => showBytes (writeAll l0 rs)
-    | _, _ => "bad-op"
-  | ["logr", ck, h] => match ck.toNat?, parseBytes h with
-    | some c, some bs => showREvents (readAllEvents (c != 0) bs)
-    | _, _ => "bad-op"
-  -- write records at initial length len0 (after `pre` garbage-free prefix written by an earlier writer), mutate, read
-  | ["logwr", ck, recs, muts] =>
-    match ck.toNat?, parseList parseBytes recs ",", parseList (fun m => match m.splitOn ":" with
-        | ["t", n] => n.toNat?.map (fun k => (0, k, 0))        -- truncate to n bytes
-        | ["s", off, v] => match off.toNat?, v.toNat? with      -- set byte
-          | some o, some x => some (1, o, x)
-          | _, _ => none
-        | ["x", off, v] => match off.toNat?, v.toNat? with      -- xor byte
-          | some o, some x => some (2, o, x)
-          | _, _ => none
-        | ["z", off, n] => match off.toNat?, n.toNat? with      -- zero n bytes from off
-          | some o, some x => some (3, o, x)
-          | _, _ => none
-        | _ => none) muts "," with
-    | some c, some rs, some ms =>
-      let bytes := writeAll 0 rs
-      let bytes := ms.foldl (fun (bs : Bytes) (m : Nat × Nat × Nat) =>
-        match m with
-        | (0, n, _) => bs.take n
-        | (1, o, x) => if o < bs.length then bs.set o (UInt8.ofNat x) else bs
-        | (2, o, x) => if o < bs.length then bs.set o ((bs.getD o 0) ^^^ UInt8.ofNat x) else bs
-        | (_, o, n) => (List.range bs.length).zip bs |>.map (fun (i, b) => if o ≤ i && i < o + n then 0 else b)) bytes
-      s!"{bytes.length} " ++ showREvents (readAllEvents (c != 0) bytes)
-    | _, _, _ => "bad-op"
-  | _ => "bad-op"
+  let f := line.trimAscii.toString.splitOn " "
+  let rec go : List (List String → String) → String
+    | [] => "bad-op"
+    | h :: hs => let r := h f; if r == "bad-op" then go hs else r
+  go handlers
 
 partial def loop (h : IO.FS.Stream) (out : IO.FS.Stream) : IO Unit := do
   let line ← h.getLine
